@@ -109,9 +109,16 @@ def smt_rotation_rule(ck, rid, where):
 
 
 def _z3_abs_of(t, name):
-    return isinstance(t, Term) and t.head == "z3.If" and len(t.args) == 3 and isinstance(t.args[0], Term) and t.args[0].head == "cmp" \
-        and t.args[0].args[0] == ">=" and _is_leaf(t.args[0].args[1], name) and t.args[0].args[2] == 0 and _is_leaf(t.args[1], name) \
-        and isinstance(t.args[2], Term) and t.args[2].head == "op" and t.args[2].args[0] == "neg" and _is_leaf(t.args[2].args[1], name)
+    if not (isinstance(t, Term) and t.head == "z3.If" and len(t.args) == 3 and isinstance(t.args[0], Term) and t.args[0].head == "cmp"):
+        return False
+    c = t.args[0].args
+    neg = lambda x: isinstance(x, Term) and x.head == "op" and x.args[0] == "neg" and _is_leaf(x.args[1], name)
+    # 0 <= x ? x : -x      |      x < 0 ? -x : x
+    if c[0] == "<=" and c[1] == 0 and _is_leaf(c[2], name):
+        return _is_leaf(t.args[1], name) and neg(t.args[2])
+    if c[0] == "<" and _is_leaf(c[1], name) and c[2] == 0:
+        return neg(t.args[1]) and _is_leaf(t.args[2], name)
+    return False
 
 
 def _z3_sdiv_shape(t, W):
@@ -127,15 +134,22 @@ def _z3_sdiv_shape(t, W):
     if not (_z3_abs_of(q.args[0], "a") and _z3_abs_of(q.args[1], "b")):
         return "the quotient is not |first operand| / |second operand|"
     c = s.args[0]
-    ok_c = isinstance(c, Term) and c.head == "cmp" and c.args[0] == ">=" and c.args[2] == 0 and isinstance(c.args[1], Term) and c.args[1].head == "op" \
-        and c.args[1].args[0] == "*"
+    pos_first = None
+    prod = None
+    if isinstance(c, Term) and c.head == "cmp":
+        if c.args[0] == "<=" and c.args[1] == 0:
+            prod, pos_first = c.args[2], True          # 0 <= product ? +1 : -1
+        elif c.args[0] == "<" and c.args[2] == 0:
+            prod, pos_first = c.args[1], False         # product < 0 ? -1 : +1
+    ok_c = prod is not None and isinstance(prod, Term) and prod.head == "op" and prod.args[0] == "*"
     if not ok_c:
         return "the sign is not decided by `product of the sign-extended operands >= 0`"
-    f = sorted(repr(x) for x in c.args[1].args[1:])
+    f = sorted(repr(x) for x in prod.args[1:])
     want = sorted(repr(Term("sext", 2 * W, Term("leaf", n, W))) for n in "ab")
     if f != want:
         return "the sign test multiplies %s, expected the operands sign-extended to %d bits (a narrower product overflows)" % (f, 2 * W)
-    if tt._z3_const(s.args[1]) != (1, W) or tt._z3_const(s.args[2]) != (-1, W):
+    plus, minus = (s.args[1], s.args[2]) if pos_first else (s.args[2], s.args[1])
+    if tt._z3_const(plus) != (1, W) or tt._z3_const(minus) != (-1, W):
         return "the sign factor is not +1 / -1 on %d bits" % W
     return None
 
